@@ -464,7 +464,11 @@ pub fn run(def: &'static PropDef, tier: Tier, seed: u64) -> i32 {
     if let Some(agg) = def.aggregate {
         let cfg = RunCfg { tier, seed, shard: 0, nshards, scale: scale() };
         if incomplete == 0 {
-            for (f, mut doc) in agg(&extra, &cfg) {
+            let (agg_failures, summary) = agg(&extra, &cfg);
+            if !summary.is_null() {
+                extra.insert("aggregate".into(), vec![summary]);
+            }
+            for (f, mut doc) in agg_failures {
                 if let Some(o) = doc.as_object_mut() {
                     o.insert("property".into(), json!(def.id));
                     o.insert("sig".into(), json!(f.sig));
